@@ -1132,7 +1132,7 @@ class ILQL(nn.Module):
                 "target_q_init_dict": self.target_q.init_dict,
                 "target_q_state_dict": self.target_q.state_dict(),
                 "q2_init_dict": self.q2.init_dict if self.double_q else None,
-                "q2_state_dict": self.q.state_dict() if self.double_q else None,
+                "q2_state_dict": self.q2.state_dict() if self.double_q else None,
                 "target_q2_init_dict": (
                     self.target_q2.init_dict if self.double_q else None
                 ),
